@@ -76,4 +76,21 @@ def hstack (a b : Mat) : Option Mat :=
     some { ncols := a.ncols + b.ncols, rows := (a.rows.zip b.rows).map fun (x, y) => x ++ y }
   else none
 
+/-- `np.int8((x & p) > 0)` for non-negative `x`, `p` (codes and powers of two; negative operands - two's complement -
+    are not modelled) -/
+def andPos (x p : Int) : Int := b2i (decide (0 < (x.toNat &&& p.toNat)))
+
+/-- `np.empty(shape=(r, c))`: the contents are unspecified; modelled as zeros - the theorems only use arrays every column of
+    which has been assigned since -/
+def empty (r c : Nat) : Mat := { ncols := c, rows := List.replicate r (List.replicate c 0) }
+
+/-- the loop `for i, p in enumerate(V): M[:, i] = np.int8((X & p) > 0)`: column `i` of `M` becomes the test of bit `p` of
+    every entry of `X`. No iteration when `V` is empty; IndexError when `V` has more entries than `M` has columns; a shape
+    error when `len(X)` is not the number of rows -/
+def assignAndPosCols (m : Mat) (x v : List Int) : Option Mat :=
+  if v.length = 0 then some m
+  else if v.length ≤ m.ncols ∧ x.length = m.rows.length then
+    some { ncols := m.ncols, rows := (m.rows.zip x).map fun (row, xi) => v.map (andPos xi) ++ row.drop v.length }
+  else none
+
 end TFV.Np
